@@ -173,7 +173,7 @@ def tnet_from( conn, addr,
     with tnet_machine( "tnet_%s" % addr[1] ) as engine:
         eof			= False
         while not ( eof or ( control and control.get( 'done' ))):
-            while ignore and source.peek() and source.peek() in ignore:
+            while ignore and source.peek() is not None and source.peek() in ignore:
                 next( source )
             data		= cpppo.dotdict()
             started		= cpppo.timer()		# When did we start the current attempt at a TNET string?
@@ -213,7 +213,7 @@ def tnet_from( conn, addr,
                     break
                 source.chain( msg )
                 # Still between TNET messages?  Ignored symbols may arrive in a later chunk than the end of the last message
-                while ignore and source.sent == begun and source.peek() and source.peek() in ignore:
+                while ignore and source.sent == begun and source.peek() is not None and source.peek() in ignore:
                     next( source )
                     begun	= source.sent
 
